@@ -41,7 +41,110 @@ PRE = ("flexvert_xpos", "flexedge_length", "flexedge_velocity", "qfrc_spring", "
 
 def cases(tier, seed):
   n = 80 if tier == "quick" else 1200
-  return [{"id": f"s{seed}_{i}", "seed": seed * 100000 + i} for i in range(n)]
+  out = [{"id": f"crash_{k}", "kind": "crash", "probe": k, "seed": 0, "weight": 3} for k in CRASH_PROBES]
+  return out + [{"id": f"s{seed}_{i}", "seed": seed * 100000 + i} for i in range(n)]
+
+
+# ------------------------------------------------------------------------------------ directed crash probes
+# Two accepted models that kill the process inside mjw.forward.  They run in a child process so that the crash becomes a
+# verdict with a mechanism signature instead of a dead worker.  The second one is not deterministic (about one run in two),
+# it is therefore repeated.
+
+_WEDGE = '<asset><mesh name="wedge" vertex="-0.1 -0.1 -0.1  0.1 -0.1 -0.1  0.1 0.1 -0.1  -0.1 0.1 -0.1  0 -0.1 0.1  0 0.1 0.1"/></asset>'
+CRASH_PROBES = {
+  "tactile-contacts-flex-geom-1": {
+    "sig": "crash:tactile-contacts-flex-geom-1",
+    "repeat": 1,
+    "noise": 0.0,
+    "xml": """<mujoco><option timestep="0.002"/><worldbody>
+<flexcomp name="a" type="grid" count="3 3 1" spacing="0.1 0.1 0.1" dim="2" mass="1" radius="0.01" pos="0 0 0.4"><edge equality="true"/><contact selfcollide="none" internal="false" condim="3"/></flexcomp>
+<flexcomp name="b" type="grid" count="4 1 1" spacing="0.08 0.08 0.08" dim="1" mass="1" radius="0.01" pos="0.02 0.03 0.415"><edge equality="true"/><contact selfcollide="none" internal="false" condim="3"/></flexcomp>
+</worldbody></mujoco>""",
+    "what": "model without geoms whose flexes touch: sensor._preprocess_tactile_contacts reads geom_bodyid[contact.geom] with geom = -1",
+  },
+  "efc_contact_init_flex": {
+    "sig": "crash:efc_contact_init_flex",
+    "repeat": 5,
+    "noise": 0.01,
+    "xml": '<mujoco><option timestep="0.002" integrator="Euler" cone="elliptic" jacobian="auto" solver="Newton" tolerance="1e-10" iterations="200"/>'
+    + _WEDGE
+    + """<worldbody><geom name="inert" type="sphere" size="0.01" pos="3 3 3" contype="0" conaffinity="0"/>
+<geom name="g0" type="ellipsoid" condim="3" size="0.0818497 0.0479446 0.0387793" pos="0.129748 0.249578 0.361626"/><geom name="g1" type="mesh" condim="3" mesh="wedge" pos="0.230648 0.00965404 0.200363"/><geom name="g2" type="cylinder" condim="4" priority="-1" size="0.0695741 0.115957" pos="0.0789968 0.160741 0.181785"/>
+<body name="carrier" pos="0 0 0.3117"><joint type="slide" axis="0 0 1" damping="1"/><geom name="cg" type="box" size="0.03 0.03 0.01" pos="0 0 -0.05" contype="0" conaffinity="0"/>
+<flexcomp name="f0" type="grid" count="3 4 1" spacing="0.08 0.08 0.08" dim="2" mass="0.783454" radius="0.01" pos="0 0 0" dof="2d"><edge equality="true" damping="0.131647"/><contact selfcollide="sap" internal="false" condim="6" solref="0.05 0.5"/></flexcomp></body>
+<flexcomp name="f1" type="grid" count="2 3 2" spacing="0.08 0.08 0.08" dim="3" mass="1.06637" radius="0.03" pos="-0.00404417 0.0260488 0.3417" dof="trilinear"><elasticity young="63161.6" poisson="0.182782" damping="0.001"/><contact selfcollide="none" internal="false" condim="6"/></flexcomp>
+</worldbody></mujoco>""",
+    "what": "cloth with 2d dofs on a sliding body + trilinear soft body + geoms, ~110 contacts: make_constraint's _efc_contact_init_flex launch",
+  },
+}
+
+_CHILD = """
+import sys, numpy as np, mujoco, warp as wp
+wp.config.quiet = True
+wp.config.kernel_cache_dir = sys.argv[1]
+import mujoco_warp as mjw
+xml = open(sys.argv[2]).read()
+noise = float(sys.argv[3])
+mjm = mujoco.MjModel.from_xml_string(xml)
+m = mjw.put_model(mjm)
+d = mjw.make_data(mjm, nworld=2, nconmax=400, njmax=1600)
+if noise > 0:  # the state of the generated case that first showed the crash (old generator, case seed 78)
+  sys.path.insert(0, sys.argv[4])
+  from mon.props import C40
+  rng = np.random.default_rng(78 + 5)
+  st = [C40.sample_state(mjm, rng, [{"spacing": 0.08}]) for _ in range(2)]
+  wp.copy(d.qpos, wp.array(np.stack([x["qpos"] for x in st]), dtype=float))
+  wp.copy(d.qvel, wp.array(np.stack([x["qvel"] for x in st]), dtype=float))
+mjw.forward(m, d)
+wp.synchronize()
+print("SURVIVED", int(d.nacon.numpy()[0]), flush=True)
+"""
+
+
+def run_crash_probe(case):
+  import os
+  import subprocess
+  import tempfile
+
+  rec = core.Rec(case)
+  P = CRASH_PROBES[case["probe"]]
+  try:
+    mujoco.MjModel.from_xml_string(P["xml"])
+  except Exception as e:  # noqa
+    rec.rejected = f"mujoco compile: {e}"[:200]
+    return rec.result()
+  tmp = tempfile.mkdtemp(prefix="c40crash_")
+  xp = os.path.join(tmp, "model.xml")
+  sp = os.path.join(tmp, "child.py")
+  open(xp, "w").write(P["xml"])
+  open(sp, "w").write(_CHILD)
+  env = dict(os.environ)
+  env["PYTHONPATH"] = (core.REPO + ":" if core.REPO != "/repo" else "") + env.get("PYTHONPATH", "")
+  cache = os.path.join(core.VERIF, ".cache", "release")
+  died, survived, other = 0, 0, []
+  for k in range(P["repeat"]):
+    try:
+      p = subprocess.run(["/venv/bin/python", sp, cache, xp, str(P["noise"]), core.VERIF], capture_output=True, text=True, timeout=600, env=env)
+    except subprocess.TimeoutExpired:
+      other.append("timeout")
+      continue
+    rec.check()
+    if p.returncode < 0 or p.returncode in (134, 139):
+      died += 1
+      tail = p.stderr[-600:]
+    elif "SURVIVED" in p.stdout:
+      survived += 1
+    else:
+      other.append((p.returncode, p.stderr[-300:]))
+  rec.cover(f"crash_probe_runs:{case['probe']}", P["repeat"])
+  rec.cover(f"crash_probe_died:{case['probe']}", died)
+  if died:
+    rec.viol(P["sig"], f"child process running mjw.forward on an accepted model died from a signal in {died} of {P['repeat']} runs ({P['what']})", stderr_tail=tail, runs=P["repeat"], died=died)
+  if other and not died:
+    rec.inconcl(f"crash probe ended abnormally without a signal: {other[:2]}"[:200])
+  rec.nontrivial("crash", case["probe"])
+  rec.sample = {"probe": case["probe"], "runs": P["repeat"], "died": died, "survived": survived}
+  return rec.result()
 
 
 # ------------------------------------------------------------------------------------ generator
@@ -253,16 +356,23 @@ def sample_state(mjm, rng, infos):
 # ------------------------------------------------------------------------------------ reference
 
 
-def judge(rec, name, got, ref, allow, noise=0.0, sig_prefix="", ctx=""):
-  """cmp.judge, except that a non-finite MJWarp value carries the plain field signature (NaN vs finite garbage is not
-  reproducible from run to run, the mechanism is the same)."""
+def judge(rec, name, got, ref, allow, noise=0.0, suffix="", ctx=""):
+  """cmp.judge with a closed signature vocabulary: signature = observable + mechanism suffix (both from fixed sets).
+
+  A non-finite MJWarp value carries the same signature as a wrong finite one (NaN vs garbage is not reproducible).
+  """
+  sig = name + suffix
   g = np.asarray(got, dtype=np.float64)
   r = np.asarray(ref, dtype=np.float64)
   if g.size == r.size and r.size and np.all(np.isfinite(r)) and not np.all(np.isfinite(g)):
     rec.check()
-    rec.viol(f"{sig_prefix}{name}", f"{name}: MJWarp value not finite where MuJoCo's is {ctx}")
+    rec.viol(sig, f"{name}: MJWarp value not finite where MuJoCo's is {ctx}")
     return "viol"
-  return cmp.judge(rec, name, got, ref, allow, noise, sig_prefix=sig_prefix, ctx=ctx)
+  if g.size != r.size:
+    rec.check()
+    rec.viol(sig, f"{name}: size {g.size} vs reference {r.size} {ctx}")
+    return "viol"
+  return cmp.judge(rec, sig, got, ref, allow, noise, ctx=ctx)
 
 
 def stage(mjm, mjd):
@@ -305,6 +415,8 @@ def extract(mjm, mjd):
 def run_case(case):
   import mujoco_warp as mjw
 
+  if case.get("kind") == "crash":
+    return run_crash_probe(case)
   rec = core.Rec(case)
   seed = case["seed"]
   rng = np.random.default_rng(seed + 5)
@@ -345,12 +457,53 @@ def run_case(case):
     needj = bool(mjm.flex_edgeequality[f] or mjm.flex_edgedamping[f] or mjm.flex_edgestiffness[f] or mjm.flex_damping[f])
     e_len[a0 : a0 + n0] = live
     e_jac[a0 : a0 + n0] = live and needj
-  # configuration class of the model: part of every signature, so that one broken flex variant cannot hide another
-  def _cls(i):
-    m_ = i["mech"] + ("/" + i["e2d"] if i.get("e2d") else "")
-    return f"dim{i['dim']}/{i['dof']}/{m_}"
+  # ---- closed signature vocabulary: observable + mechanism, both decided by model predicates (never by seed / sizes)
+  needj_f = [bool(mjm.flex_edgeequality[f] or mjm.flex_edgedamping[f] or mjm.flex_edgestiffness[f] or mjm.flex_damping[f]) for f in range(mjm.nflex)]
+  live_f = [bool(not mjm.flex_rigid[f] and mjm.flex_interp[f] == 0) for f in range(mjm.nflex)]
+  # a live flex without Jacobian storage (rownnz = 0, rowadr = 0) next to one with storage: _flex_edges writes it anyway
+  nojac_second = any(live_f[f] and not needj_f[f] for f in range(mjm.nflex)) and any(live_f[f] and needj_f[f] for f in range(mjm.nflex))
+  jstruct = bool(jointed_parent or nojac_second)
+  interp_elastic = any(mjm.flex_interp[f] != 0 and infos[f]["mech"] == "elasticity" for f in range(min(mjm.nflex, len(infos))))
+  radial_elastic = any(infos[f]["dof"] == "radial" and infos[f]["mech"] == "elasticity" for f in range(min(mjm.nflex, len(infos))))
+  flexstrain = bool(np.any(mjm.eq_type == int(mujoco.mjtEq.mjEQ_FLEXSTRAIN))) if mjm.neq else False
+  sparse_newton = bool(m.is_sparse and mjm.opt.solver == mujoco.mjtSolver.mjSOL_NEWTON)
+  # put_model warns "Bending damping is not yet supported for interpolated flex shells": documented, not judged
+  bend_damp_doc = False
+  for f in range(mjm.nflex):
+    if mjm.flex_interp[f] < 0 and mjm.flex_bendingadr[f] >= 0 and int(mjm.flex_bending[mjm.flex_bendingadr[f]]) > 0 and mjm.flex_damping[f] > 0:
+      bend_damp_doc = True
+  any_gap = bool(np.any(mjm.flex_gap != 0) or np.any(mjm.geom_gap != 0))
 
-  CL = "[" + "+".join(_cls(i) for i in infos) + "]"
+  def passive_suffix():
+    if interp_elastic:
+      return ":interpolated-elasticity"
+    if radial_elastic:
+      return ":radial-elasticity"
+    return ""
+
+  def path(key):
+    """Collision path of a contact key (one MJWarp kernel family each)."""
+    g0_, g1_, f0_, f1_ = key[:4]
+    if g0_ >= 0 or g1_ >= 0:
+      g = g0_ if g0_ >= 0 else g1_
+      return "plane-flex" if mjm.geom_type[g] == mujoco.mjtGeom.mjGEOM_PLANE else "geom-flex"
+    return "self-flex" if f0_ == f1_ else "flex-flex"
+
+  SETSIG = {"geom-flex": "contacts:geom-flex:vertex-vs-element-contacts", "plane-flex": "contacts:plane-flex", "self-flex": "contacts:self-flex", "flex-flex": "contacts:flex-flex"}
+
+  def combo(key):
+    """Primitive pair of a contact key (coverage counters only)."""
+    g0_, g1_, f0_, f1_, e0_, e1_, v0_, v1_ = key
+    if g0_ >= 0 or g1_ >= 0:
+      g = g0_ if g0_ >= 0 else g1_
+      f = f1_ if f1_ >= 0 else f0_
+      gt = mujoco.mjtGeom(int(mjm.geom_type[g])).name[7:].lower()
+      prim = "elem" if max(e0_, e1_) >= 0 else "vert"
+      return f"{gt}-vs-{prim}(dim{int(mjm.flex_dim[f])})"
+    prim = ("elem" if e0_ >= 0 else "vert") + "-" + ("elem" if e1_ >= 0 else "vert")
+    same = "self" if f0_ == f1_ else "flex-flex"
+    return f"{same}:{prim}(dim{int(mjm.flex_dim[f0_])},dim{int(mjm.flex_dim[f1_])})"
+
   nworld = 2 + int(seed % 2)
   states = [sample_state(mjm, rng, infos) for _ in range(nworld)]
   d = mw.make_data(mjm, m, states, nconmax=400, njmax=1600)
@@ -394,8 +547,15 @@ def run_case(case):
     # ---- pre-solver fields
     cok = rok = True
     skip = set()
-    if jointed_parent:
-      skip |= {"flexedge_velocity", "qfrc_spring", "qfrc_damper", "qfrc_passive", "rows", "qacc"}
+    if jstruct:
+      skip |= {"flexedge_velocity", "qfrc_damper", "qfrc_passive", "rows", "qacc"}
+      if jointed_parent:
+        skip |= {"qfrc_spring"}
+    if bend_damp_doc:
+      skip |= {"qfrc_damper", "qfrc_passive", "qacc"}
+      rec.count("worlds_documented_unsupported_bending_damping")
+    if interp_elastic or radial_elastic:
+      skip |= {"qfrc_passive", "qacc"}  # sums / consequences of qfrc_spring + qfrc_damper, which are judged
     if edge_spring:
       skip |= {"qfrc_spring", "qfrc_passive", "qacc"}
     if edge_damp:
@@ -410,13 +570,13 @@ def run_case(case):
         g, r = g[e_len], r[e_len]
       elif k == "flexedge_velocity":
         g, r = g[e_jac], r[e_jac]
-      judge(rec, k, g, r, A, noise[k], sig_prefix=CL, ctx=ctx)
+      judge(rec, k, g, r, A, noise[k], suffix=(passive_suffix() if k in ("qfrc_spring", "qfrc_damper") else ""), ctx=ctx)
     gJ = dense_edge_J(mjm, eJ[w], rn, ra, ci)
     rec.cover("flex_edges_with_reference_jacobian", int(e_jac.sum()))
-    judge(rec, "flexedge_J", gJ[e_jac], ref["flexedge_J"][e_jac], A, noise["flexedge_J"], sig_prefix=("jointed-parent:" if jointed_parent else CL), ctx=ctx)
+    judge(rec, "flexedge_J", gJ[e_jac], ref["flexedge_J"][e_jac], A, noise["flexedge_J"], suffix=(":jointed-parent-or-second-flex" if jstruct else ""), ctx=ctx)
     # the two silently ignored passive mechanisms: exactly one signature each, decided on the mechanism itself
     for flag_, name, fld in ((edge_spring, "flex_edgestiffness", "qfrc_spring"), (edge_damp, "flex_edgedamping", "qfrc_damper")):
-      if flag_ and not jointed_parent:
+      if flag_ and not jstruct:
         mjm2 = mujoco.MjModel.from_xml_string(xml)
         getattr(mjm2, name)[:] = 0
         mjd2 = mujoco.MjData(mjm2)
@@ -459,28 +619,6 @@ def run_case(case):
       rec.check()
       rec.cover("contacts_reference", len(mjd.contact))
 
-      def combo(key):
-        """Mechanism class of a contact key: which primitive pair produced it."""
-        g0_, g1_, f0_, f1_, e0_, e1_, v0_, v1_ = key
-        if g0_ >= 0 or g1_ >= 0:
-          g = g0_ if g0_ >= 0 else g1_
-          f = f1_ if f1_ >= 0 else f0_
-          gt = mujoco.mjtGeom(int(mjm.geom_type[g])).name[7:].lower()
-          prim = "elem" if max(e0_, e1_) >= 0 else "vert"
-          return f"{gt}-vs-{prim}(dim{int(mjm.flex_dim[f])})"
-        prim = ("elem" if e0_ >= 0 else "vert") + "-" + ("elem" if e1_ >= 0 else "vert")
-        same = "self" if f0_ == f1_ else "flex-flex"
-        return f"{same}:{prim}(dim{int(mjm.flex_dim[f0_])},dim{int(mjm.flex_dim[f1_])})"
-
-      def path(key):
-        """Collision path (one MJWarp kernel family each); the per-primitive detail goes to the coverage counters."""
-        g0_, g1_, f0_, f1_ = key[:4]
-        if g0_ >= 0 or g1_ >= 0:
-          g = g0_ if g0_ >= 0 else g1_
-          f = f1_ if f1_ >= 0 else f0_
-          return ("plane" if mjm.geom_type[g] == mujoco.mjtGeom.mjGEOM_PLANE else "geom") + f"-vs-flex(dim{int(mjm.flex_dim[f])})"
-        return ("self" if f0_ == f1_ else "flex-flex") + f"(dim{int(mjm.flex_dim[f0_])},dim{int(mjm.flex_dim[f1_])})"
-
       missing = [k for k in rkeys if len(gkeys.get(k, [])) < len(rkeys[k])]
       extra = [k for k in gkeys if len(rkeys.get(k, [])) < len(gkeys[k])]
       for key in rkeys:
@@ -492,7 +630,7 @@ def run_case(case):
         seen = set()
         for what, lst in (("missing", missing), ("extra", extra)):
           for k0 in lst:
-            sg = f"contacts:set-differs:{path(k0)}"
+            sg = SETSIG[path(k0)]
             if sg in seen:
               continue
             seen.add(sg)
@@ -510,16 +648,16 @@ def run_case(case):
             # nearest position among same-key contacts
             gi = min(gis, key=lambda i: np.abs(con["pos"][i] - c.pos).max())
             nz = max(noise["flexvert_xpos"], 1e-9)
-            cok &= "ok" == judge(rec, "contact.dist", con["dist"][gi], c.dist, 1e-5, 10 * nz, sig_prefix=combo(key) + ":", ctx=f"{ctx} key {key}")
-            cok &= "ok" == judge(rec, "contact.pos", con["pos"][gi], c.pos, 1e-5, 10 * nz, sig_prefix=combo(key) + ":", ctx=f"{ctx} key {key}")
-            cok &= "ok" == judge(rec, "contact.normal", np.asarray(con["frame"][gi]).reshape(3, 3)[0], np.asarray(c.frame)[:3], 1e-4, 1e3 * nz, sig_prefix=combo(key) + ":", ctx=f"{ctx} key {key}")
-            cok &= "ok" == judge(rec, "contact.includemargin", con["includemargin"][gi], c.includemargin, 1e-6, 0, sig_prefix=combo(key) + ":", ctx=f"{ctx} key {key}")
-            cok &= "ok" == judge(rec, "contact.friction", con["friction"][gi], c.friction, 1e-6, 0, sig_prefix=combo(key) + ":", ctx=f"{ctx} key {key}")
-            cok &= "ok" == judge(rec, "contact.solref", con["solref"][gi], c.solref, 1e-6, 0, sig_prefix=combo(key) + ":", ctx=f"{ctx} key {key}")
-            cok &= "ok" == judge(rec, "contact.solimp", con["solimp"][gi], c.solimp, 1e-6, 0, sig_prefix=combo(key) + ":", ctx=f"{ctx} key {key}")
+            cok &= "ok" == judge(rec, "contact.dist", con["dist"][gi], c.dist, 1e-5, 10 * nz, suffix=":" + path(key), ctx=f"{ctx} key {key}")
+            cok &= "ok" == judge(rec, "contact.pos", con["pos"][gi], c.pos, 1e-5, 10 * nz, suffix=":" + path(key), ctx=f"{ctx} key {key}")
+            cok &= "ok" == judge(rec, "contact.normal", np.asarray(con["frame"][gi]).reshape(3, 3)[0], np.asarray(c.frame)[:3], 1e-4, 1e3 * nz, suffix=":" + path(key), ctx=f"{ctx} key {key}")
+            cok &= "ok" == judge(rec, "contact.includemargin", con["includemargin"][gi], c.includemargin, 1e-6, 0, suffix=":" + path(key) + (":flex-gap" if any_gap else ""), ctx=f"{ctx} key {key}")
+            cok &= "ok" == judge(rec, "contact.friction", con["friction"][gi], c.friction, 1e-6, 0, suffix=":" + path(key), ctx=f"{ctx} key {key}")
+            cok &= "ok" == judge(rec, "contact.solref", con["solref"][gi], c.solref, 1e-6, 0, suffix=":" + path(key), ctx=f"{ctx} key {key}")
+            cok &= "ok" == judge(rec, "contact.solimp", con["solimp"][gi], c.solimp, 1e-6, 0, suffix=":" + path(key), ctx=f"{ctx} key {key}")
             rec.check()
             if int(con["dim"][gi]) != int(c.dim):
-              rec.viol(combo(key) + ":contact.dim", f"{ctx}: contact dim {int(con['dim'][gi])} vs {int(c.dim)} key {key}")
+              rec.viol("contact.dim:" + path(key), f"{ctx}: contact dim {int(con['dim'][gi])} vs {int(c.dim)} key {key}")
 
     if contacts_match and struct_stable and not boundary and len(mjd.contact) and not cok:
       contacts_match = False
@@ -532,7 +670,7 @@ def run_case(case):
       rows_match = True
       if G["nefc"] != len(R["type"]):
         rows_match = False
-        rec.viol("efc:nefc" + CL, f"{ctx}: nefc {G['nefc']} vs MuJoCo {len(R['type'])} (ne {G['ne']} vs {mjd.ne})")
+        rec.viol("efc:nefc", f"{ctx}: nefc {G['nefc']} vs MuJoCo {len(R['type'])} (ne {G['ne']} vs {mjd.ne})")
       else:
         # contact ids differ between engines: contact rows are grouped by the contact key instead
         def rowkey(types, ids, i, which):
@@ -553,16 +691,16 @@ def run_case(case):
         if set(rg) != set(gg) or any(len(rg[k]) != len(gg[k]) for k in rg):
           rows_match = False
           bad = [k for k in set(rg) | set(gg) if len(rg.get(k, [])) != len(gg.get(k, []))][:4]
-          rec.viol("efc:row-groups" + CL, f"{ctx}: constraint row groups differ, e.g. (type,id)->(#mujoco,#mjwarp): " + ", ".join(f"{k}->({len(rg.get(k, []))},{len(gg.get(k, []))})" for k in bad))
+          rec.viol("efc:row-groups", f"{ctx}: constraint row groups differ, e.g. (type,id)->(#mujoco,#mjwarp): " + ", ".join(f"{k}->({len(rg.get(k, []))},{len(gg.get(k, []))})" for k in bad))
         else:
           nzJ = max(noise["flexedge_J"], noise["flexvert_xpos"], 1e-9)
 
           def rowcls(key):
             if isinstance(key[1], tuple):
-              return "row:" + combo(key[1]) + ":"
+              return ":" + path(key[1])
             if key[0] == int(mujoco.mjtConstraint.mjCNSTR_EQUALITY):
-              return "row:equality:" + CL
-            return "row:other:" + CL
+              return ":flex-equality"
+            return ":other"
 
           rok = True
           for key, ris in rg.items():
@@ -574,9 +712,9 @@ def run_case(case):
               gi = min(gis, key=lambda i: np.abs(G["J"][i] - R["J"][ri]).max() + abs(G["pos"][i] - R["pos"][ri]))
               gis.remove(gi)
               jscale = 100 if not is_eq else 10
-              rok &= "ok" == judge(rec, "efc.J", G["J"][gi], R["J"][ri], 1e-4, jscale * nzJ, sig_prefix=rowcls(key), ctx=f"{ctx} row {ri} key {key}")
-              rok &= "ok" == judge(rec, "efc.pos", G["pos"][gi], R["pos"][ri], 1e-5, 10 * nzJ, sig_prefix=rowcls(key), ctx=f"{ctx} row {ri} key {key}")
-              rok &= "ok" == judge(rec, "efc.D", G["D"][gi] / max(1.0, abs(R["D"][ri])), R["D"][ri] / max(1.0, abs(R["D"][ri])), 1e-4, 0, sig_prefix=rowcls(key), ctx=f"{ctx} row {ri} key {key}")
+              rok &= "ok" == judge(rec, "efc.J", G["J"][gi], R["J"][ri], 1e-4, jscale * nzJ, suffix=rowcls(key), ctx=f"{ctx} row {ri} key {key}")
+              rok &= "ok" == judge(rec, "efc.pos", G["pos"][gi], R["pos"][ri], 1e-5, 10 * nzJ, suffix=rowcls(key), ctx=f"{ctx} row {ri} key {key}")
+              rok &= "ok" == judge(rec, "efc.D", G["D"][gi] / max(1.0, abs(R["D"][ri])), R["D"][ri] / max(1.0, abs(R["D"][ri])), 1e-4, 0, suffix=rowcls(key), ctx=f"{ctx} row {ri} key {key}")
     if rows_match and not rok:
       rows_match = False
     # ---- gated post-solver comparison
@@ -584,7 +722,7 @@ def run_case(case):
     if gated:
       rec.count("worlds_gated")
       sc = max(1.0, float(np.abs(ref["qacc"]).max()))
-      judge(rec, "qacc", got["qacc"][w][: mjm.nv] / sc, ref["qacc"] / sc, 1e-3, noise["qacc"] / sc, sig_prefix=CL + ("sparse" if m.is_sparse else "dense") + "-" + mujoco.mjtSolver(int(mjm.opt.solver)).name[6:].lower() + ":", ctx=ctx)
+      judge(rec, "qacc", got["qacc"][w][: mjm.nv] / sc, ref["qacc"] / sc, 1e-3, noise["qacc"] / sc, suffix=(":flexstrain:sparse-newton" if (flexstrain and sparse_newton) else ""), ctx=ctx)
     else:
       rec.count("worlds_ungated")
   for f in feat:
